@@ -25,7 +25,7 @@ package manifest
 // a backslash followed by three octal digits; every other byte is copied.  In
 // particular no emitted piece other than a complete escape contains a
 // backslash, so UnescapeName(EscapeName(s)) cannot change the name.
-//@ func EscapeName property C10
+//@ func EscapeName property C10,C17
 //@   replay check UnescapeName(result) == s
 //@   replay hint "a\\040b", "x\\\\y", "a b", "tab\there"
 //@   ghost len0 int = 0
